@@ -19,7 +19,7 @@ def main():
     args = [a for a in sys.argv[1:] if not a.startswith("--")]
     pid, letter = args[0], args[1]
     extra = args[2:]
-    seed = f"/tmp/seed5_{pid}/SEED" if letter in ("I", "J") else f"/tmp/seed4_{pid}/SEED" if letter in ("G", "H") else f"/tmp/seed3_{pid}/SEED" if letter in ("E", "F") else f"/tmp/seed2_{pid}/SEED" if letter in ("C", "D") else f"/tmp/seed_{pid}/SEED"
+    seed = f"/tmp/seed6_{pid}/SEED" if letter in ("K", "L") else f"/tmp/seed5_{pid}/SEED" if letter in ("I", "J") else f"/tmp/seed4_{pid}/SEED" if letter in ("G", "H") else f"/tmp/seed3_{pid}/SEED" if letter in ("E", "F") else f"/tmp/seed2_{pid}/SEED" if letter in ("C", "D") else f"/tmp/seed_{pid}/SEED"
     patch = f"{seed}/{letter}.diff"
     demo = f"{seed}/{letter}_demo.rs"
     kept = f"/verif/seeded/{pid}-{letter}"
